@@ -9,9 +9,11 @@ import GV.Model.Rewards
 
   model column: the integer skeleton `GV.Model.Rewards.calculate` instantiated with IEEE
     doubles (Lean `Float`) in the expression order of the Go code. Go map iteration order
-    is not observable, so for mode x the driver searches the iteration orders (pools ≤ 4,
-    delegators ≤ 4) for one that reproduces the implementation's output; for mode c (large
-    snapshots) it checks that the output is a possible result of the skeleton.
+    is not observable, so the driver searches the iteration orders for one that reproduces the
+    implementation's output: exhaustively for mode x (pools ≤ 4, delegators ≤ 4); for mode c
+    (large snapshots) over a sample of orders (rotations, every pool last, 48 pseudo-random
+    permutations, every distinct resulting `totalShare`), falling back to "the output is a
+    possible result of the skeleton" when the sample does not contain the order Go used.
   spec column: the property itself evaluated on the implementation's output.
 -/
 namespace GV.Drv.C45
@@ -102,21 +104,25 @@ def rawShare (inp : Inputs) (p : Pool) : Float :=
 
 def ownerStake (p : Pool) : Nat := (p.dels.filter (·.owner)).foldl (fun a d => addW a d.stake) 0
 
-/-- the float-derived quantities for a given first-pass order (it fixes `totalShare`) -/
-def fdFloat (inp : Inputs) (firstPass : List Pool) : FD :=
-  let shares := firstPass.map fun p => (p.idx, rawShare inp p)
-  let total0 := shares.foldl (fun a s => a + s.2) 0.0
+/-- `totalShare` as the first pass computes it for a given iteration order (float addition is
+    not associative: the order matters in the last bits) -/
+def totalShareOf (inp : Inputs) (firstPass : List Pool) : Float :=
+  firstPass.foldl (fun a p => a + rawShare inp p) 0.0
+
+/-- the float-derived quantities for a given value of the first pass's `totalShare` -/
+def fdFloatWith (inp : Inputs) (nPools : Nat) (total0 : Float) : FD :=
   let zero := total0 == 0.0
   let totalShare := if zero then 1.0 else total0
-  let shareOf (p : Pool) : Float :=
-    if zero then 1.0 / Float.ofNat shares.length
-    else match shares.find? (·.1 == p.idx) with | some s => s.2 | none => 0.0
+  let shareOf (p : Pool) : Float := if zero then 1.0 / Float.ofNat nPools else rawShare inp p
   { poolT := fun p => f2u (u2f inp.pot * (shareOf p / totalShare))
     opPart := fun p total =>
       let margin := marginF p
       let ownerStakeRatio := u2f (ownerStake p) / u2f (totalPoolStake p)
       f2u (u2f (subW total p.cost) * (margin + (1.0 - margin) * ownerStakeRatio))
     delPart := fun p d S => f2u (u2f d.stake / u2f (totalPoolStake p) * u2f S) }
+
+def fdFloat (inp : Inputs) (firstPass : List Pool) : FD :=
+  fdFloatWith inp firstPass.length (totalShareOf inp firstPass)
 
 -- ---------------------------------------------------------------- rendering / parsing of results
 
@@ -172,29 +178,55 @@ def perms : List α → List (List α)
   | [] => [[]]
   | a :: l => (perms l).flatMap (insertAll a)
 
-/-- orders tried for a list: all of them up to 4 elements, otherwise the given one -/
-def orders (l : List α) : List (List α) := if l.length ≤ 4 then perms l else [l]
+def rotations (l : List α) : List (List α) :=
+  (List.range l.length).map fun k => l.drop k ++ l.take k
+
+/-- a pseudo-random permutation (keys from a linear congruential generator, insertion by key) -/
+def shuffle (seed : Nat) (l : List α) : List α :=
+  let keyed := (List.range l.length |>.zip l).map fun (i, x) =>
+    ((seed * 6364136223846793005 + (i + 1) * 1442695040888963407) % 18446744073709551629 % 1000003, x)
+  (keyed.toArray.qsort (fun a b => a.1 < b.1)).toList.map (·.2)
+
+/-- orders tried for a list: all of them up to 4 elements; otherwise the given order, its reverse,
+    all rotations of both, every element moved to the end, and 48 pseudo-random permutations -/
+def orders (l : List α) : List (List α) :=
+  if l.length ≤ 4 then perms l else
+    rotations l ++ rotations l.reverse ++
+    ((List.range l.length).map fun k => (l.take k ++ l.drop (k + 1)) ++ (l.drop k).take 1) ++
+    ((List.range 48).map fun k => shuffle (k + 1) l)
+
+/-- delegator orders tried: all up to 4, otherwise the given order, its reverse and their rotations -/
+def delOrders (l : List Del) : List (List Del) :=
+  if l.length ≤ 4 then perms l else rotations l ++ rotations l.reverse
 
 /-- result of one pool for a given total, choosing a delegator order that reproduces `want` if there is one -/
 def poolFor (fd : FD) (p : Pool) (total : Nat) (want : Option String) : PoolOut :=
-  let cands := (orders p.dels).map fun ds => distribute fd { p with dels := ds } total
+  let first := distribute fd p total
+  if some (renderPool first) == want then first else
+  let cands := (delOrders p.dels).map fun ds => distribute fd { p with dels := ds } total
   match cands.find? (fun o => some (renderPool o) == want) with
   | some o => o
-  | none => distribute fd p total
+  | none => first
 
-def modelX (inp : Inputs) (ps : List Pool) (impl : String) : String :=
+def dedupFloats (l : List Float) : List Float :=
+  l.foldl (fun acc x => if acc.any (fun y => y.toBits == x.toBits) then acc else acc ++ [x]) []
+
+/-- Exact reproduction of the implementation's output by searching the map iteration orders:
+    the first-pass order only matters through the value of `totalShare`, the second-pass order
+    through which pool is last (and through the clamping order when the shares overshoot). -/
+def modelX (inp : Inputs) (ps : List Pool) (impl : String) : Option String × String :=
   let want : List (Nat × String) :=
     match parseResult impl with
     | some r => r.pools.map fun o => (o.idx, renderPool o)
     | none => []
-  let cands : List String := (orders ps).flatMap fun o1 =>
-    let fd := fdFloat inp o1
-    (orders ps).map fun o2 =>
-      let ts := amounts inp.pot fd o2 0
-      renderAll inp.pot ((o2.zip ts).map fun (p, t) => poolFor fd p t ((want.find? (·.1 == p.idx)).map (·.2)))
-  match cands.find? (· == impl) with
-  | some s => s
-  | none => cands.headD "no-candidate"
+  let os := orders ps
+  let totals := dedupFloats (os.map (totalShareOf inp))
+  let cands : List String := totals.flatMap fun ts =>
+    let fd := fdFloatWith inp ps.length ts
+    os.map fun o2 =>
+      let amts := amounts inp.pot fd o2.length o2 0
+      renderAll inp.pot ((o2.zip amts).map fun (p, t) => poolFor fd p t ((want.find? (·.1 == p.idx)).map (·.2)))
+  (cands.find? (· == impl), cands.headD "no-candidate")
 
 -- ---------------------------------------------------------------- the property on the implementation's output
 
@@ -238,10 +270,16 @@ def handle (line : String) : Out :=
       let model :=
         if early then s!"ok total=0 rest={inp.pot} |"
         else if ps.isEmpty then "err:no-valid-pools"
-        else if inp.mode == "x" then modelX inp ps impl
-        else match parseResult impl with
-          | some r => if consistent inp ps r then impl else "not-a-result-of-the-integer-skeleton"
-          | none => "unparsable-result"
+        else
+          match modelX inp ps impl with
+          | (some s, _) => s
+          | (none, first) =>
+            -- small snapshots must be reproduced exactly; for large ones (the order search is
+            -- a sample) the result must at least be a possible result of the integer skeleton
+            if inp.mode == "x" then first
+            else match parseResult impl with
+              | some r => if consistent inp ps r then impl else "not-a-result-of-the-integer-skeleton"
+              | none => "unparsable-result"
       let spec :=
         if impl.startsWith "err:" then "*"
         else match parseResult impl with
